@@ -282,7 +282,7 @@ class Gen:
     def context(self, jsx, i):
         w = self.p.get("contexts", {"expr-stmt": 4, "const": 4, "fn-body": 2, "arrow-expr": 2, "arrow-block": 1,
                                     "assign": 1, "nested-block": 1, "class-method": 1, "export-default": 1, "loop": 1,
-                                    "class-field": 0, "default-param": 0})
+                                    "class-field": 0, "default-param": 0, "destructure": 0, "loop-head": 0, "multi-decl": 0})
         k = self.r.wpick([(a, b) for a, b in w.items() if b > 0])
         self.u("ctx:" + k)
         return {
@@ -298,6 +298,13 @@ class Gen:
             "loop": lambda: "for (const it of list) { out.push(%s); }" % jsx,
             "class-field": lambda: "class K%d { field = %s; }" % (i, jsx),
             "default-param": lambda: "function g%d(a = %s) { return a; }" % (i, jsx),
+            # binding patterns (the declarator / parameter is not a plain identifier), JSX in the initializer or in a pattern default
+            "destructure": lambda: self.r.pick(["const { da%d = %s } = obj;", "const [db%d] = [%s];", "let { k: [dc%d = %s] = [] } = obj;", "var [, dd%d = 1, ...dr] = f(() => %s);",
+                                                "const { de%d, ...dr } = { de: %s };", "const { [x]: df%d = %s } = obj;", "function dg%d({ a = %s }) { return a; }",
+                                                "const dh%d = ([a = %s]) => a;"]) % (i, jsx),
+            "loop-head": lambda: self.r.pick(["for (const [la%d] of [[%s]]) { out.push(la); }", "for (let { lb%d = %s } of list) { out.push(lb); }",
+                                              "for (let lc%d = %s; ;) { break; }", "for (const ld%d in { k: %s }) { out.push(ld); }"]) % (i, jsx),
+            "multi-decl": lambda: "const ma%d = 1, { mb = %s } = obj, mc = %s;" % (i, jsx, self.r.pick(["2", "fn1()", "<i/>"])),
         }[k]()
 
     def module(self):
